@@ -1,5 +1,6 @@
 """Schedule generator, runner (real code) and model comparison for the request-level properties
 C11, C13, C14, C20."""
+import priv
 import hostworld
 import streams
 from common import hx
@@ -102,7 +103,7 @@ def run_schedule(r, sched, drain=True, max_live=3):
                 w.start(tsn, req, to_ms / 1000)
                 record("start", m)
             elif ev in ("ack", "badack"):
-                cur = w.p._pack_seq
+                cur = priv.pack_seq(w.p)
                 k = cur if ev == "ack" else (cur + 1 + int(x * 3)) % 4
                 tr.tokens.append("A:%d" % k)
                 w.rx(streams.ack(k))
@@ -147,7 +148,7 @@ def run_schedule(r, sched, drain=True, max_live=3):
                 w.close()
                 record("close", m)
             elif ev == "lost":
-                if w.api._uart is None:
+                if priv.get(w.api, "api", "uart") is None:
                     continue
                 tr.tokens.append("L")
                 w.lost()
